@@ -109,6 +109,18 @@ std::string gen_formula(Rng& r, int depth) {
   return f;
 }
 
+// Every caller-supplied string now and then comes in a long variant with a length at or next to a power of two
+// (fixed-size scratch buffers and "n vs n+1" slips in message formatting only show there).
+static std::string maybe_long(Rng& r, std::string s) {
+  if (!r.chance(1, 25)) return s;
+  static const int lens[] = {63, 64, 65, 127, 128, 129, 200, 211, 212, 213, 255, 256, 257, 300, 511, 512, 513, 1023, 1024, 1025, 4095, 4096, 4097, 9000};
+  size_t want = (size_t)lens[r.below(sizeof lens / sizeof lens[0])];
+  static const char fill[] = "abcdefghijklmnopqrstuvwxyzABCDEFGHIJKLMNOPQRSTUVWXYZ0123456789";
+  if (s.empty()) s = "L";
+  while (s.size() < want) s += fill[r.below(sizeof fill - 1)];
+  return s;
+}
+
 static std::string mutate_string(Rng& r, std::string s) {
   if (s.empty()) return "x";
   int c = r.range(0, 5);
@@ -142,9 +154,9 @@ std::string gen_compound_arg(Rng& r, bool* is_null) {
                                       "He0.0", "C6H12O6(", "()", "(())", "A", "Uuo", "H2O ", ".5H", "H..5", "H-2", "Ca5(PO4)3F",
                                       "SiO2", "Jj", "HeLLo", "Fe2O3Fe2O3Fe2O3Fe2O3Fe2O3Fe2O3Fe2O3Fe2O3Fe2O3Fe2O3Fe2O3Fe2O3", "H1e5",
                                       "H1000000000000000000000000000000000000", "(H)0", "(H)1.1.1", "(H2O)0.0", "O2(", ")O2(", "Not a compound"};
-    return bad[r.below(sizeof bad / sizeof bad[0])];
+    return maybe_long(r, bad[r.below(sizeof bad / sizeof bad[0])]);
   }
-  if (c < 95) return mutate_string(r, r.chance(1, 2) ? gen_formula(r, 0) : std::string(g_nist_names[0] ? g_nist_names[r.below(count_names(g_nist_names))] : "Air"));
+  if (c < 95) return maybe_long(r, mutate_string(r, r.chance(1, 2) ? gen_formula(r, 0) : std::string(g_nist_names[0] ? g_nist_names[r.below(count_names(g_nist_names))] : "Air")));
   if (c < 98) {
     std::string s;
     int n = r.range(1, 200);
@@ -213,10 +225,10 @@ static std::string gen_lookup_name(Rng& r, const char* const* names, bool* is_nu
   int n = count_names(names);
   int c = r.range(0, 99);
   if (c < 70 && n) return names[r.below(n)];
-  if (c < 85 && n) return mutate_string(r, names[r.below(n)]);
+  if (c < 85 && n) return maybe_long(r, mutate_string(r, names[r.below(n)]));
   if (c < 97) {
     static const char* const bad[] = {"", "water", "55fe", "Fe55", "Unobtainium", " ", "Water, Liquid ", "241Am "};
-    return bad[r.below(sizeof bad / sizeof bad[0])];
+    return maybe_long(r, bad[r.below(sizeof bad / sizeof bad[0])]);
   }
   *is_null = true;
   return "";
@@ -242,7 +254,7 @@ Op gen_self_contained_op(Rng& r, int id, bool crystal_catalogue) {
     o.kind = OK_S2A;
     int k = r.range(0, 9);
     if (k < 7) o.s = kSymbols[r.below(kNSymbols)];
-    else if (k < 9) o.s = mutate_string(r, kSymbols[r.below(kNSymbols)]);
+    else if (k < 9) o.s = maybe_long(r, mutate_string(r, kSymbols[r.below(kNSymbols)]));
     else o.snull = true;
   } else if (c < 95) {
     o.kind = OK_ATOMFAC;
@@ -270,7 +282,7 @@ Op gen_self_contained_op(Rng& r, int id, bool crystal_catalogue) {
       o.kind = OK_CA_GET; o.h[0] = -2;
       int k = r.range(0, 9);
       if (k < 7) o.s = pick_builtin_name(r);
-      else if (k < 9) o.s = mutate_string(r, pick_builtin_name(r));
+      else if (k < 9) o.s = maybe_long(r, mutate_string(r, pick_builtin_name(r)));
       else o.snull = true;
     }
   } else {
@@ -295,6 +307,7 @@ CrystalSpec gen_crystal_spec(Rng& r, const std::vector<std::string>& pool) {
   if (k < 60 && !pool.empty()) c.name = pool[r.below(pool.size())];
   else if (k < 70) c.name = pick_builtin_name(r);
   else c.name = gen_name(r, 20);
+  if (r.chance(1, 60)) c.name = maybe_long(r, maybe_long(r, c.name));
   c.cseed = r.next() & 0xffffffffULL;
   int a = r.range(0, 99);
   c.natoms = a < 10 ? 0 : a < 80 ? r.range(1, 8) : a < 95 ? r.range(9, 40) : r.range(41, 64);
@@ -642,8 +655,9 @@ void gen_history(Rng& r, const GenCfg& cfg, std::vector<Op>& out, int& next_id, 
         int q = r.range(0, 9);
         if (q < 5 && !st.pool.empty()) o.s = st.pool[r.below(st.pool.size())];
         else if (q < 8) o.s = pick_builtin_name(r);
-        else if (q < 9) o.s = gen_name(r, 30);
+        else if (q < 9) o.s = maybe_long(r, gen_name(r, 30));
         else o.snull = true;
+        if (r.chance(1, 40)) o.s = maybe_long(r, maybe_long(r, o.s));
         st.hs.push_back({id, HT_CRYSTAL, false});
       } else if (a < 76) {
         o.kind = OK_CA_LIST; o.h[0] = r.chance(1, 4) ? -2 : st.pick(r, HT_ARRAY, true); if (o.h[0] == -1) o.h[0] = -2;
@@ -744,7 +758,7 @@ std::string op_to_text(const Op& p) {
 std::string plan_to_text(const Plan& p) {
   std::string o = "xrlsim-plan 1\n";
   char b[256];
-  o += "engine " + p.engine + "\nbatch " + p.batch + "\n";
+  o += "engine " + p.engine + "\nbatch " + p.batch + "\ndata " + p.data + "\n";
   snprintf(b, sizeof b, "seed %llu\nrunseed %llu\nlocale %d\n", (unsigned long long)p.seed, (unsigned long long)p.runseed, p.locale); o += b;
   snprintf(b, sizeof b, "sched policy=%d param=%d seed=%llu\n", p.sched.policy, p.sched.param, (unsigned long long)p.sched.seed); o += b;
   if (!p.sched.task_events_hint.empty()) {
@@ -772,6 +786,7 @@ uint64_t plan_hash(const Plan& p) {
   Plan q = p;
   q.seed = q.runseed = 0;
   q.expect.clear();
+  q.data.clear();
   return hash_str(plan_to_text(q).c_str());
 }
 
@@ -872,6 +887,7 @@ bool plan_from_text(const std::string& txt, Plan& p, std::string* err) {
     if (line.rfind("xrlsim-plan", 0) == 0) { header = true; continue; }
     if (line.rfind("engine ", 0) == 0) p.engine = line.substr(7);
     else if (line.rfind("batch ", 0) == 0) p.batch = line.substr(6);
+    else if (line.rfind("data ", 0) == 0) p.data = line.substr(5);
     else if (line.rfind("seed ", 0) == 0) p.seed = strtoull(line.c_str() + 5, nullptr, 10);
     else if (line.rfind("runseed ", 0) == 0) p.runseed = strtoull(line.c_str() + 8, nullptr, 10);
     else if (line.rfind("locale ", 0) == 0) p.locale = atoi(line.c_str() + 7);
